@@ -12,289 +12,411 @@ Definition show_fres (r : fres) : string :=
   end.
 Definition check (rs : list rune) : string := digest (show_fres (format_res rs)).
 Definition full (rs : list rune) : string := show_fres (format_res rs).
-Eval vm_compute in ("<<<M1789>>>" ++ check (runes_of_ascii "options {
-    MetaDataX = true
-}
-
-root packet u8x {
-    repeat uint16 u8x `" ++ [28040; 24687; 31867; 22411]%N ++ runes_of_ascii "`,
-    @tag(42)
-    char[7] trueish @lengthOf(Pad),
-    tag @lengthOf(A) `say ""hi""`,
-    float rootA,// " ++ [27880; 37322]%N ++ runes_of_ascii "
-    Foo,
-    repeat uint32 calculatedFrom,
-}
-
-root packet u128 {
-    repeat Packet metadata,
-    repeat zchar[0123456789] len `u8 x,`,
-    f32 BodyLength @lengthOf(Z9_) `it's`,
-    match crc as Packet {
-        0 : i64_,
-        [255] : rootA,
-        [
-            ""a	b"", ""\" ++ [233]%N ++ runes_of_ascii """, ""\" ++ [233]%N ++ runes_of_ascii """,
-            0, 4294967296
-        ] : i8i8,
-    },
-    @tag(1)
-    @calculatedFrom(""\" ++ [233]%N ++ runes_of_ascii """)
-    string f32a @calculatedFrom(""abc""),
-    repeat As {
-        matchKey {
-            crc @calculatedFrom(""// no comment""),
-        },
-        lengthOf `crlf
-                line`,
-        // a // b
-        // a // b
-        T Pad `a\`,
-        repeat i8i8 charz,// a // b
-    },
-}
-
-packet packetx {
-    @lengthOf(Packet)
-    repeat uint8x `line1
-        line2`,
-    @tag(0123456789)
-    string BodyLength @calculatedFrom(""" ++ [28040; 24687]%N ++ runes_of_ascii """),// trailing space 
-    zchar[42] MetaDataX,
-    char A @lengthOf(tag) `two words`,
-    @tag(10)
-    @calculatedFrom(""" ++ [28040; 24687]%N ++ runes_of_ascii """)
-    @calculatedFrom(""x y"")
-    char[7] repeatCount @calculatedFrom(""// no comment""),
-    @calculatedFrom(""it's"")
-    char[65535] packetx `// not a comment`,
-    @leftPad(' ')
-    match tag as packetx {
-        00 : int,
-    },
-    @tag(7)
-    @lengthOf(float)
-    @tag(0123456789)
-    Z9_,
-    @tag(00)
-    tag {
-        uint16 MetaDataX,
-        u tag `tab	here`,
-        float64 Packet @calculatedFrom(""{,}""),
-        x_y_z u128,
-    },
-    char[] msg_type @lengthOf(calculatedFrom) `line1
-        line2`,
-}
-
-MetaData float {
-    uint32 crc,
-    charz msg_type,
-    u128 crc,
-    string stringy `" ++ [233]%N ++ runes_of_ascii "`,
-}")).
-Eval vm_compute in ("<<<M156>>>" ++ check (runes_of_ascii "packet
-A { @rightPad ( '0' ) repeat	i8i8
-    { zchar[ 007 ]
-    packetx,
-    metadata `" ++ [28040; 24687; 31867; 22411]%N ++ runes_of_ascii "` ,	repeat float64  T ,}, @tag(0)Z9_ { int
-@lengthOf( tag
-)`line1
+Eval vm_compute in ("<<<M165>>>" ++ check (runes_of_ascii "packet falsey { char[7
+    ]
+Foo @calculatedFrom( ""CRC32"" ) , @tag(
+    //
+    10)	u8 Packet`" ++ [233]%N ++ runes_of_ascii "` ,repeat  stringy
+,
+@lengthOf( // a // b
+float)tag { repeat
+    u8x {
+int16 charz@lengthOf(trueish ) , //	t
+repeat  string calculatedFrom,
+charz @calculatedFrom(  ""a\""b""
+)	`line1
 line2`
-, repeat i8i8 // packet A { u8 x, }
-{  zchar[  00 ]stringy
 ,
-repeat f32a{ match i64_ //
-as
-    string_ {[ 255 , ""{,}"" , 0123456789 ]
-: x_y_z
-, """ ++ [233]%N ++ runes_of_ascii "t" ++ [233]%N ++ runes_of_ascii """ : A
-, ""`tick`"" : len ,} , } ,
-    //
-    repeat u8x {u16 Z9_
-@calculatedFrom(""" ++ [128512]%N ++ runes_of_ascii """ ) `line1
-line2` ,f32 matchKey
-    ,} ,// " ++ [27880; 37322]%N ++ runes_of_ascii "
-float64 u8x `
-`,
-    },//
-} , // `tick` ""quote"" 'q'
-a1	{ repeat
-    // trailing space 
-    zchar[ 007
-] Foo `two words`
-,f32a	@calculatedFrom( """ ++ [28040; 24687]%N ++ runes_of_ascii """// trailing space 
-) ,int64 i64_  @calculatedFrom( // trailing space 
-""`tick`"" ) , } ,
-    @lengthOf(
-    // c
-    Header )	f32
-stringy @calculatedFrom(
-""x y"" )`say ""hi""` , Foo , float64
-BodyLength@calculatedFrom( // " ++ [27880; 37322]%N ++ runes_of_ascii "
-""packet"") ,
-    uint32
-// packet A { u8 x, }
-//
-int
-//
-//x
-, } packet string_{ @tag( 4294967296
-) repeat u
-`two words` , repeat zchar[ 0 ]
-BodyLength
-, @tag( 255 )/// triple
-int `line1
-line2` ,	uint8x`it's`,@tag(
-65535 )
-int8
-    metadata
-`" ++ [233]%N ++ runes_of_ascii "` ,/// triple
-match
-options1
-//x
-// " ++ [128512]%N ++ runes_of_ascii " emoji
-as
-    float// packet A { u8 x, }
-{ 3: f32a , """ ++ [28040; 24687]%N ++ runes_of_ascii """
-    : charz
-,}
-,match uint8x	as
-string_ { ""CRC32"" //x
-:
-x
-, } , uint8	packetx`crlf
-line` ,
-@leftPad (
-)
-    zchar[
-0
-] Foo `say ""hi""`, }
-")).
-Eval vm_compute in ("<<<M331>>>" ++ check (runes_of_ascii "packet o
-// trailing space 
-//x
-{	repeat pack stringy `two words`	,
-    char[	1 ]
-leftPad , }
-/// triple
+},u64
+    MetaDataX @calculatedFrom( """ ++ [128512]%N ++ runes_of_ascii """
+    ) `" ++ [233]%N ++ runes_of_ascii "`
+    ,rootA
+    // packet A { u8 x, }
+    {
+    repeat	u64 BodyLength
+`" ++ [233]%N ++ runes_of_ascii "` , pack @calculatedFrom( //x
+""{,}"" )
+    `" ++ [28040; 24687; 31867; 22411]%N ++ runes_of_ascii "` ,repeat // c
+x charz,
+},
+    // a // b
+    char[] packetx, }	, // `tick` ""quote"" 'q'
+calculatedFrom , u x_y_z
+,repeat	int	i64_ ,@leftPad (
+    ' '
+)u32 T @calculatedFrom( ""{,}"" )
+, repeat
+    metadata , } root packet
+chars
+{ char[	65535
+]  pack @lengthOf( As ) `tab	here` , char[
+255] msg_type `// not a comment`
+    ,@calculatedFrom(
+    ""// no comment"" ) @tag( //	t
+0 ) @tag(10 ) repeat Header {
+    char[]
 // @lengthOf(
-MetaData msg_type{ zchar[  1] Pad`" ++ [28040; 24687; 31867; 22411]%N ++ runes_of_ascii "` , uint32 //x
-charz//
-`a\`
-,  A u8x `// not a comment` ,
-    // `tick` ""quote"" 'q'
-    } packet
-options1
-    {@calculatedFrom( """ ++ [233]%N ++ runes_of_ascii "t" ++ [233]%N ++ runes_of_ascii """
-) @rightPad( )
-Pad
-@lengthOf(// packet A { u8 x, }
-pack ) `` ,
-match
-    A
-as
-    a1 { 255  :
-msg_type  ,
-}
-,
 // " ++ [27880; 37322]%N ++ runes_of_ascii "
-//
-@lengthOf( tag )  @tag( 00 )@rightPad(' '
-) match Header	as f32a { """" : float , } // @lengthOf(
-, char[] T@calculatedFrom(
-    // packet A { u8 x, }
-    ""packet""	) , repeat asx /// triple
-msg_type`crlf
-line` , @calculatedFrom( ""\" ++ [233]%N ++ runes_of_ascii """ ) @tag( // trailing space 
-7
-)
-int64 o
-`line1
-line2`,
-    // trailing space 
-    } // " ++ [128512]%N ++ runes_of_ascii " emoji
-root
-packet// packet A { u8 x, }
-crc  { int8
-body
-@lengthOf( matchKey ) `two words` ,
-    //	t
-    @lengthOf( u8x )
-zchar[
-0123456789
-    ] i8i8,
-} MetaData  a1 { falsey _x
-`
-` ,
-char[] body`" ++ [28040; 24687; 31867; 22411]%N ++ runes_of_ascii "` ,
-// packet A { u8 x, }
-//
-zchar[ 42] trueish `
-` , float trueish,  metadata //x
-o `{ , }`, }")).
-Eval vm_compute in ("<<<M176>>>" ++ check (runes_of_ascii "
-packet i8i8 { @tag( 0 ) int32
-leftPad `it's`
-, repeat char[]Header`crlf
-line`
-, @calculatedFrom( ""\" ++ [233]%N ++ runes_of_ascii """ )/// triple
-repeat
-    uint8 float , @rightPad
-('\x00' ) char[] zchar@lengthOf(
-// a // b
-//x
-leftPad )
-`
-` , Z9_ ,
-@lengthOf(
-x ) match As as
-    tag {	""a	b""  :
-string_ [
-10 , 7 , ""1"" , 255
-,
-3
-    , 42 ,
-    //
-    0123456789, """ ++ [128512]%N ++ runes_of_ascii """ ] :x_y_z ,""CRC32""
-: Z9_  , 00
-    // c
-    : Logon
+i64_,repeat T//x
+`` ,match uint8x	as i64_ {
+00// `tick` ""quote"" 'q'
+: _x ,	65535: //
+Z9_,
+""1""
+: u8x ,
+007 : Z9_
+, 255
+:
+matchKey
+""1"" :
+crc , } , } ,
+    @calculatedFrom(	""packet""	) match int as x_y_z{ 0123456789 :	Logon
+    // @lengthOf(
     ,
-} , @tag(007) o {
-    char
-    Packet
-@lengthOf(
     //	t
-    repeatCount
-) , } , @lengthOf(
-// " ++ [27880; 37322]%N ++ runes_of_ascii "
-/// triple
-pack
-) float64 rootA `two words`
-    ,	repeat char[] BodyLength ,}
-packet Z9_{ match
-    // packet A { u8 x, }
-    As
-as
-    a1{ //
-0: trueish // `tick` ""quote"" 'q'
-,} ,
-/// triple
-// " ++ [27880; 37322]%N ++ runes_of_ascii "
-} root packet u8x {
-/// triple
-// " ++ [128512]%N ++ runes_of_ascii " emoji
-repeat
-string Logon `tab	here` , // " ++ [128512]%N ++ runes_of_ascii " emoji
-}	options { _x
-=
-    ""packet""
-;f32a =007 } packet i8i8 {@calculatedFrom( ""CRC32"" )
-A @lengthOf(
-a1
+    [ 0123456789, ""it's"" ]
+:
+int
+    , [""a	b"" , ""CRC32"" , 0, 4294967296 , """"	] :
+pack , 0 : u , } , match // @lengthOf(
+string_ as
+int
+{ 0: repeatCount [ ""abc""
+    ] : // " ++ [27880; 37322]%N ++ runes_of_ascii "
+float 007: msg_type , [
+    ""a\""b""	]:
+charz , } , i16 MetaDataX`say ""hi""`, repeat u `tab	here` , repeat falsey  { repeat i8 lengthOf `a\` ,
+    repeatCount@lengthOf( o)
+    `{ , }`,}, }packet rootA
+    { calculatedFrom//	t
+@calculatedFrom( ""x y"") ,
+char Pad @calculatedFrom( ""a\""b"" ) `" ++ [233]%N ++ runes_of_ascii "`
+    , @leftPad
+( '\x00' )	repeat float64 tag ,
+    // " ++ [27880; 37322]%N ++ runes_of_ascii "
+    @calculatedFrom( ""1"") repeat Foo ,  } // " ++ [27880; 37322]%N)).
+Eval vm_compute in ("<<<M1330>>>" ++ check (runes_of_ascii "// top
+packet // c0a
+  // c0b
+Frame // c1a
+  // c1b
+{ // c2a
+  // c2b
+u8 // c3
+HK // c4
+,
+    // c5
+u8
+    // c6
+BK // c7
+, // c8a
+  // c8b
+u8 // c9
+TK // c10
+, // c11a
+  // c11b
+match // c12
+HK as Hdr // c15a
+  // c15b
+{ // c16
+1
+    // c17
+:
+    // c18
+HdrA , 2 // c21
+:
+    // c22
+HdrB // c23
+, // c24a
+  // c24b
+} ,
+    // c26
+match
+    // c27
+BK as
+    // c29
+Body // c30
+{
+    // c31
+1 : // c33a
+  // c33b
+BodyA // c34
+,
+    // c35
+2 :
+    // c37
+BodyB , } // c40a
+  // c40b
+, // c41
+match // c42
+TK
+    // c43
+as // c44
+Trl // c45a
+  // c45b
+{ // c46a
+  // c46b
+1
+    // c47
+: // c48
+TrlA , // c50a
+  // c50b
+} // c51a
+  // c51b
+, // c52a
+  // c52b
+} // c53a
+  // c53b
+packet HdrA // c55
+{ u8 // c57
+a // c58a
+  // c58b
+, // c59
+} // c60
+packet // c61a
+  // c61b
+HdrB
+    // c62
+{ // c63a
+  // c63b
+u16
+    // c64
+b // c65
+, // c66
+} // c67
+packet // c68
+BodyA { // c70a
+  // c70b
+u32
+    // c71
+c // c72
+, } // c74
+packet
+    // c75
+BodyB {
+    // c77
+u64 // c78a
+  // c78b
+d // c79
+, // c80a
+  // c80b
+} // c81a
+  // c81b
+packet TrlA // c83a
+  // c83b
+{
+    // c84
+u8 e // c86
+,
+    // c87
+} // c88a
+  // c88b
+root // c89a
+  // c89b
+packet
+    // c90
+Msg
+    // c91
+{ Frame , // c94a
+  // c94b
+u8 // c95a
+  // c95b
+x // c96a
+  // c96b
+, // c97a
+  // c97b
+}
+    // c98
+")).
+Eval vm_compute in ("<<<M1881>>>" ++ check (runes_of_ascii "root
+    packet u 
+{ 
+match  //x
+
+  T
+
+as body	// c
+  {	[
+""a\""b"", 3
+
+    ]
+:
+
+    stringy ""a	b""
+	:
+	charz // a // b
+, 10	:
+
+    lengthOf 	 // " ++ [128512]%N ++ runes_of_ascii " emoji
+  	, 
+""CRC32""
+:	falsey
+,0123456789
+	:	_x ,
+
+    }
+
+,
+	body
+    @lengthOf( i64_ ) ,
+
+    u64
+	chars
+`u8 x,`  , T
+
+{  i64_
+
+    string_
+    , 
+u32
+    metadata
+
+,
+zchar[
+
+    1
+	] Z9_	, }
+
+    // c
+,
+
+    @calculatedFrom(
+""a\\"" 
 )
-, } 	 ")).
+rootA 	 // " ++ [128512]%N ++ runes_of_ascii " emoji
+	x_y_z	`u8 x,`
+
+,
+
+    zchar[ 007 ] body @calculatedFrom(
+
+    ""\n""
+)
+,
+@leftPad
+	(
+    '0' )
+@rightPad('0'
+    )	@calculatedFrom(
+""" ++ [233]%N ++ runes_of_ascii "t" ++ [233]%N ++ runes_of_ascii """ )repeat
+uint64 
+A ,
+repeat u8x	{
+match o
+as
+
+x
+
+    {10  :
+
+charz 
+
+// " ++ [27880; 37322]%N ++ runes_of_ascii "
+	// " ++ [27880; 37322]%N ++ runes_of_ascii "
+  ,
+
+""a	b"":matchKey
+
+    , ""x y""
+:trueish
+,
+
+    [
+""" ++ [233]%N ++ runes_of_ascii "t" ++ [233]%N ++ runes_of_ascii """
+
+]:
+
+    zchar
+	,
+""1""
+
+:  charz	// " ++ [27880; 37322]%N ++ runes_of_ascii "
+
+, 
+[	""a\""b""
+, ""abc""	,""a\\""
+,  ""abc"",
+    // packet A { u8 x, }
+  // " ++ [128512]%N ++ runes_of_ascii " emoji
+"""" 
+
+// packet A { u8 x, }
+  /// triple
+  ]
+    : u8x, }
+
+, }	,repeat falsey
+{
+	rootA
+
+tag 
+, zchar[  /// triple
+  0
+    ]  falsey
+,} ,
+charz  a1
+
+    `{ , }`
+
+, }
+root
+
+packet/// triple
+		Header	{}
+")).
+Eval vm_compute in ("<<<M13>>>" ++ check (runes_of_ascii "root
+    packet	roots{ // `tick` ""quote"" 'q'
+} options	{	asx =
+    ""\n"" ; x_y_z =
+3 ;rootA = ""CRC32""
+    ;float=char  T = false
+; }
+packet falsey {
+body { match u8x as /// triple
+string_{ [
+42,7 ,65535
+    ,
+    3 ,
+    42 ,7 , ""1""
+    , ""packet"" ]:
+    // `tick` ""quote"" 'q'
+    i64_ , [ ""abc""]
+    :  Foo ,	""a\\""
+    :
+roots ,
+    4294967296 :	stringy	}
+    , //x
+asx
+`{ , }` // " ++ [128512]%N ++ runes_of_ascii " emoji
+, i8
+charz@lengthOf( // trailing space 
+x_y_z)// trailing space 
+`a\` ,}
+    // @lengthOf(
+    , @tag( 65535 ) i64_ @lengthOf( tag )`u8 x,`
+// a // b
+//	t
+,Z9_@lengthOf( int )
+, @calculatedFrom( ""a\""b""
+)uint16  stringy @lengthOf( trueish ) , Logon	{string  Logon `say ""hi""` , packetx
+i64_ , match msg_type as	float
+{ ""\n"" : i64_,	[
+""" ++ [128512]%N ++ runes_of_ascii """
+    ]
+:
+metadata , // `tick` ""quote"" 'q'
+[
+// trailing space 
+// " ++ [128512]%N ++ runes_of_ascii " emoji
+10, ""1""  ]
+:zchar ,
+}
+    , //x
+}
+    //x
+    , Packet
+    @calculatedFrom(""CRC32"" ), }
+")).
 Eval vm_compute in ("<<<M298>>>" ++ check (runes_of_ascii "
 options  { } options
     {  uint8x =
@@ -332,307 +454,387 @@ Packet ) repeatCount  int
     char[007
 ] a1`tab	here`, As
     @calculatedFrom( ""`tick`"") `// not a comment`,} 	 ")).
-Eval vm_compute in ("<<<M1644>>>" ++ check (runes_of_ascii "MetaData lengthOf {
-}
-
-MetaData falsey {
-    // " ++ [27880; 37322]%N ++ runes_of_ascii "
-    falsey i64_ `
-    `,
-    zchar[255] u `two words`,
-    BodyLength int,
-    matchKey i8i8 `crlf
-    line`,
-    uint8x asx,
-    char[] options1,
-}
-
-packet asx {
-    @lengthOf(o)
-    @calculatedFrom(""\n"")
-    char[] lengthOf `two words`,
-    BodyLength `" ++ [233]%N ++ runes_of_ascii "`,
-    repeat u8x len `doc`,
-    int @calculatedFrom(""a\\"") `line1
-    line2`,
-    @lengthOf(MetaDataX)
-    Packet packetx,
-    a1 {
-        match Logon as len {
-            4294967296 : matchKey,
-            [
-                1, 10, 10, ""{,}"", """ ++ [233]%N ++ runes_of_ascii "t" ++ [233]%N ++ runes_of_ascii """,
-                0123456789
-            ] : leftPad,
-            3 : msg_type,
-            //	t
-            //x
-            1 : As,
-        },
-        chars,
-    },
-}")).
-Eval vm_compute in ("<<<M1648>>>" ++ check (runes_of_ascii "// `tick` ""quote"" 'q'
-packet As {
-    @rightPad('0')
-    stringy @lengthOf(calculatedFrom),
-    @tag(10)
-    string uint8x `
-    `,
-    match body as uint8x {
-        ""it's"" : rootA,
-        [00] : leftPad,
-        42 : MetaDataX,
-        ""a	b"" : calculatedFrom,
-        255 : trueish,
-    },
-    repeat i64 Logon `tab	here`,
-}
-
-options {
-    crc = '\x00';
-}
-
-packet x {
-    @calculatedFrom(""a\\"")
-    @tag(42)
-    @leftPad('0')
-    match o as x_y_z {
-        // packet A { u8 x, }
-        [
-            """ ++ [128512]%N ++ runes_of_ascii """, ""x y"", 0123456789, ""CRC32"", ""it's"",
-            007, 3, 007
-        ] : Packet,
-        // c
-        [255, ""x y""] : x_y_z,
-    },
-}
-// trailing space ")).
-Eval vm_compute in ("<<<M1405>>>" ++ check (runes_of_ascii "root packet asx {
-    tag body `u8 x,`,
-}
-
-packet string_ {
-    @lengthOf(len)
-    repeat zchar[42] u8x,
-    zchar[0] asx,
-}
-
-packet int {
-    repeat crc {
-        zchar float,
-        match i8i8 as rootA {
-            255 : lengthOf,
-            1 : lengthOf,
-            3 : roots,
-            3 : uint8x,
-            0 : As,
-            ""`tick`"" : repeatCount,
-        },
-        repeat char[] falsey,
-        u64 lengthOf,
-    },
-    @lengthOf(crc)
-    lengthOf i64_,
-    leftPad `crlf
-    line`,
-}
-
-root packet zchar {
-    f32 _x @calculatedFrom(""a\\""),
-}
-
-MetaData chars {
-    //
-}")).
-Eval vm_compute in ("<<<M1412>>>" ++ check (runes_of_ascii "options {
-    StringPrefixLenType = u8;
-    ArrayPrefixLenType = u8;
-    FixedStringPadFromLeft = false;
-    FixedStringPadChar = ' ';
-}
-
-packet Ack {
-    char[] tag7,
-}
-
-packet Reject {
-    InSym61 {
-        repeat Ack,
-        zchar[4] f1,
-    },
-}
-
-packet Logout {
-    char[4] clOrdID,
-}
-
-root packet Cancel {
-    @leftPad(' ')
-    char[10] price,
-    u8 x,
-    u32 venue @lengthOf(Body),
-    match x as Body {
-        [92, 175] : Logout,
-        26 : Reject,
-        144 : Ack,
-    },
-    u16 count @calculatedFrom(""CRC32""),
-}")).
-Eval vm_compute in ("<<<M294>>>" ++ check (runes_of_ascii "options { rootA = 4294967296 ; falsey = ""a\""b""
-;
-As =
-// @lengthOf(
-/// triple
-""""
-;packetx
-    = ""packet"" i8i8 =true ;
-} // `tick` ""quote"" 'q'
-packet x  { repeat zchar
-rootA , char[]
-    pack  `// not a comment`
-,@tag( 00 )
-@tag( 0123456789)
-u @calculatedFrom( ""packet"" )`u8 x,` , Header{
-    zchar[ 00
-    ] body
+Eval vm_compute in ("<<<M354>>>" ++ check (runes_of_ascii "options {
+} packet u8x{ string uint8x@calculatedFrom(""{,}"" )	`crlf
+line`	,} MetaData falsey{
+    Logon packetx `tab	here` , } root packet o
+{ falsey@calculatedFrom(
+//x
+// " ++ [27880; 37322]%N ++ runes_of_ascii "
+""" ++ [28040; 24687]%N ++ runes_of_ascii """ ) ,	@tag(0123456789) // `tick` ""quote"" 'q'
+char[
+    // `tick` ""quote"" 'q'
+    0123456789
+]	u128@calculatedFrom(
+""{,}"" ) ,
+    @tag(
+    00)
+@lengthOf( stringy
+) @tag( 4294967296
+)  rootA Header,  @lengthOf(As
+    )
+    repeat leftPad `// not a comment`// c
+, i8 leftPad @calculatedFrom( """" ) , @tag( 10
+) zchar[ 007
+] packetx
+@lengthOf( // packet A { u8 x, }
+u8x )	`" ++ [28040; 24687; 31867; 22411]%N ++ runes_of_ascii "` ,
+}packet	options1 {
+//	t
+// trailing space 
+falsey// packet A { u8 x, }
+{ //	t
+zchar[ 3
+    ]// " ++ [128512]%N ++ runes_of_ascii " emoji
+roots
+//
+// a // b
 ,
-    a1	@calculatedFrom( // " ++ [128512]%N ++ runes_of_ascii " emoji
-""it's"" )
-`" ++ [233]%N ++ runes_of_ascii "`, }, } // " ++ [27880; 37322]%N ++ runes_of_ascii "
+    u32 Header // c
+,
+} ,// a // b
+}")).
+Eval vm_compute in ("<<<M1122>>>" ++ check (runes_of_ascii "// top
+options // c0
+{ // c1
+uint8x // c2
+= // c3
+007 // c4
+; // c5
+lengthOf // c6
+= // c7
+i8 // c8
+; // c9
+} // c10
+packet // c11
+i64_ // c12
+{ // c13
+@calculatedFrom( // c14
+""1"" // c15
+) // c16
+@tag( // c17
+3 // c18
+) // c19
+@lengthOf( // c20
+rootA // c21
+) // c22
+repeat // c23
+int8 // c24
+Packet // c25
+`u8 x,` // c26
+, // c27
+} // c28
+root // c29
+packet // c30
+stringy // c31
+{ // c32
+@rightPad // c33
+( // c34
+' ' // c35
+) // c36
+repeat // c37
+char[ // c38
+10 // c39
+] // c40
+repeatCount // c41
+, // c42
+@tag( // c43
+255 // c44
+) // c45
+float64 // c46
+msg_type // c47
+@calculatedFrom( // c48
+""packet"" // c49
+) // c50
+, // c51
+} // c52
+")).
+Eval vm_compute in ("<<<M1294>>>" ++ check (runes_of_ascii "// top
+packet // c0a
+  // c0b
+A // c1
+{
+    // c2
+u8
+    // c3
+a // c4a
+  // c4b
+, } // c6a
+  // c6b
+packet // c7a
+  // c7b
+B // c8a
+  // c8b
+{ u16 // c10
+b // c11a
+  // c11b
+,
+    // c12
+}
+    // c13
+root // c14
+packet P // c16
+{ // c17a
+  // c17b
+u8 K1 // c19
+, // c20
+u8 // c21a
+  // c21b
+K2 // c22a
+  // c22b
+, // c23a
+  // c23b
+match // c24a
+  // c24b
+K1 as
+    // c26
+M1 // c27a
+  // c27b
+{ // c28a
+  // c28b
+1
+    // c29
+:
+    // c30
+A // c31
+, // c32a
+  // c32b
+} , match K2
+    // c36
+as
+    // c37
+M2 // c38
+{ 1 : // c41a
+  // c41b
+B
+    // c42
+, } ,
+    // c45
+} // c46
+")).
+Eval vm_compute in ("<<<M1300>>>" ++ check (runes_of_ascii "// top
+packet // c0
+A { u8
+    // c3
+a , // c5a
+  // c5b
+} // c6
+packet
+    // c7
+B { // c9a
+  // c9b
+u16 // c10a
+  // c10b
+b // c11
+, // c12
+}
+    // c13
+root packet // c15a
+  // c15b
+P { // c17
+u8 // c18
+K // c19
+, // c20
+match // c21
+K // c22
+as // c23
+M // c24a
+  // c24b
+{
+    // c25
+[ // c26
+1
+    // c27
+,
+    // c28
+2 // c29a
+  // c29b
+] // c30a
+  // c30b
+: // c31a
+  // c31b
+A // c32a
+  // c32b
+, 3
+    // c34
+: // c35
+B // c36a
+  // c36b
+, 7 // c38
+: // c39a
+  // c39b
+A // c40
+, // c41
+} ,
+    // c43
+}
+    // c44
+")).
+Eval vm_compute in ("<<<M1764>>>" ++ check (runes_of_ascii "// top
+options {
+    // c1
+    uint8x = 007;
+    lengthOf = i8;// c9a
+    // c9b
+}
+
+packet i64_ {
+    // c13
+    @calculatedFrom(""1"")
+    // c16
+    @tag(3)
+    // c19
+    @lengthOf(rootA)
+    // c22
+    repeat int8 Packet `u8 x,`,// c27
+}// c28a
+
+// c28b
+root packet stringy {
+    // c32a
+    // c32b
+    @rightPad(' ')
+    // c36
+    repeat char[10] repeatCount,// c42
+    @tag(255)
+    // c45
+    float64 msg_type @calculatedFrom(""packet""),// c51a
+    // c51b
+}// c52")).
+Eval vm_compute in ("<<<M14>>>" ++ check (runes_of_ascii "MetaData u128
+    {// a // b
+string zchar //x
+`two words` ,u16 packetx
+`a\` , char[ 1 ] Logon	, len crc, char[
+7]i8i8,char[]calculatedFrom,
+} // @lengthOf(
+MetaData u
+    { u// " ++ [128512]%N ++ runes_of_ascii " emoji
+u128
+, //	t
+}root packet metadata { }options	{ matchKey =
+    255
+;
+x_y_z
+= 007 crc=int16
+; zchar =// c
+char[42 ]
+; int
+= true ;
+} options  {
+Header = """ ++ [128512]%N ++ runes_of_ascii """
+;
+len
+    = ' ' ; matchKey= """" ;MetaDataX =' '
+; o
+    = '\x00' ; }
+/// triple
+")).
+Eval vm_compute in ("<<<M303>>>" ++ check (runes_of_ascii "  packet
+    tag{ } packet
+    //
+    packetx { @calculatedFrom( ""x y""
+    )@tag(
+    42 )
+@lengthOf(
+    As  ) char a1`two words` ,
+    @leftPad
+(
+    '\x00' )
+    @tag(10)
+@lengthOf( u)
+    char[] falsey // " ++ [128512]%N ++ runes_of_ascii " emoji
+,
+    // " ++ [27880; 37322]%N ++ runes_of_ascii "
+    }//
 MetaData
-    A // a // b
-{zchar /// triple
-matchKey
-    `` , int64 metadata ,char[] _x //	t
+f32a {
+    string u128 , roots
+    stringy , Header body,
+    float options1
+    //	t
+    `it's`
+    ,	i8i8 options1
+`" ++ [28040; 24687; 31867; 22411]%N ++ runes_of_ascii "`
+    ,
+}")).
+Eval vm_compute in ("<<<M1927>>>" ++ check (runes_of_ascii "
+packet	A
+{u8
+
+    a ,
+    }packet
+B
+
+    { u16
+
+b,
+
+}
+    packet
+    C  {
+
+u32 c ,
+    }
+root	packet
+
+M { u16
+    Kc
+,u16 
+Kb , u16 Ka ,
+
+    match	Kc
+as
+
+    X { 9  : 
+A
+
+,
+
+    10
+: 
+B
+	,
+
+    }
+,  match 
+Kb
+
+    as Y  {
+2 :  C 
+,
+
+1 :A,}
+    , 
+match
+    Ka 
+as
+    Z {
+	1
+
+    :
+
+    B	,
+}
+
+,  A,
+B	,
+
+C
 , }
 ")).
-Eval vm_compute in ("<<<M1638>>>" ++ check (runes_of_ascii "  packet Frame {u8
-HK
-,
-u8  BK
-
-,
-
-    u8	TK
-
-    ,
-
-    match HK
-as
-Hdr {  1
-
-    : HdrA ,
-2
-
-:
-
-HdrB
-
-    , }
-, match
-BK as	Body
-
-{ 
-1
-    :
-BodyA
-    , 
-2 :	BodyB,
-    }, match TK as  Trl
-{
-    1	: TrlA,
-    }
-
-    , }packet  HdrA{ u8 a,} 
-packet	HdrB {  u16
-b, }packet BodyA
-
-    { u32
-
-c
-,}packet
-	BodyB{
-    u64	d
-
-    ,
-}packet
-
-TrlA  {
-
-u8
-	e
-    ,
-	}  root
-
-packet 
-Msg  { Frame	,
-
-    u8
-x , 
-}
-
-")).
-Eval vm_compute in ("<<<M220>>>" ++ check (runes_of_ascii "root
-    packet string_{
-//	t
-//x
-i16 o /// triple
-,
-    @tag( 4294967296
-)
-repeat char o ,Foo {match MetaDataX // trailing space 
-as leftPad
-    { 0123456789 : calculatedFrom ,
-[ 0 ]
-: u128}
-, repeat
-u
-// `tick` ""quote"" 'q'
-// @lengthOf(
-{
-    zchar[65535]body@lengthOf( float  )
-,o , asx @calculatedFrom( ""{,}"" ) `it's` // `tick` ""quote"" 'q'
-,}// `tick` ""quote"" 'q'
-,
-} ,  }
-")).
-Eval vm_compute in ("<<<M245>>>" ++ check (runes_of_ascii "MetaData float{ int16
-// c
-// " ++ [128512]%N ++ runes_of_ascii " emoji
-chars , int8 _x
-, char	charz ,
-Header  u8x
-    , u16 _x
-,
-    // @lengthOf(
-    x_y_z repeatCount ,}	packet Foo
-{ @tag(//	t
-1  )
-string Logon	`
-`
-, }//x
-options{ zchar =  ' ' trueish = //x
-""""
-    leftPad =255 ;
-}	root packet options1 {u64 packetx// `tick` ""quote"" 'q'
-@calculatedFrom(""// no comment""  ) ``,}
-")).
-Eval vm_compute in ("<<<M1402>>>" ++ check (runes_of_ascii "options {
+Eval vm_compute in ("<<<M1376>>>" ++ check (runes_of_ascii "options {
     LittleEndian = true;
 }
-
 packet Logon {
     u8 x,
 }
-
 packet Logout {
     u16 reason,
 }
-
 root packet Frame {
-    u64 Kind,
-    u64 Kind2,
+    u8 Kind,
+    u8 Kind2,
     match Kind as Body {
         1 : Logon,
         [2, 3, 4] : Logout,
@@ -641,125 +843,150 @@ root packet Frame {
     match Kind2 as Trailer {
         0 : Logout,
     },
-}")).
-Eval vm_compute in ("<<<M1384>>>" ++ check (runes_of_ascii "
+}
+")).
+Eval vm_compute in ("<<<M1314>>>" ++ check (runes_of_ascii "packet MDSnapshotZZ {
+    u8 a,
+}
+packet OrderACK {
+    u16 b,
+}
+packet HTTPServerInfo {
+    string s,
+}
+root packet FIXMsg {
+    u8 KType,
+    MDSnapshotZZ,
+    repeat OrderACK,
+    match KType as Body {
+        1 : HTTPServerInfo,
+        2 : OrderACK,
+    },
+}
+")).
+Eval vm_compute in ("<<<M1313>>>" ++ check (runes_of_ascii "options	{ FixedStringPadChar
+=
+
+'0';  }packet
+Q
+{ zchar[4  ]
+
+z
+	, @rightPad  ('\x00'  )
+
+    char[ 
+3
+]
+n , char[
+    5 ]  d,
+}
+
+    root
 packet
+R
 
-    Sub { u8	a ,	@calculatedFrom(
-""CRC16"" )
+{
 
-    i32
-	SubSum
+    Q 
+, zchar[8 
+]top
 
-    ,} root 
-packet Frame
-	{
-    u16	MsgType 
-,
+    ,	repeat zchar[	2
+]
+	zs
 
-    u16
-BodyLen
-@lengthOf(
-    Body
-
-) 
-,
-Sub  Body 
-,  string
-
-    note  , @calculatedFrom(
-
-""CRC16""
-
-) 
-i32	Checksum
-
-    ,
-u8 tail,
-	}
-")).
-Eval vm_compute in ("<<<M1923>>>" ++ check (runes_of_ascii "root packet i8i8 {
-    @tag(4294967296)
-    // packet A { u8 x, }
-    Header calculatedFrom `
-    `,
-    @tag(4294967296)
-    @rightPad(' ')
-    @lengthOf(float)
-    options1 zchar `" ++ [233]%N ++ runes_of_ascii "`,
-}
-
-root packet x {
-    repeat zchar[10] x `u8 x,`,
+    , 
 }")).
-Eval vm_compute in ("<<<M18>>>" ++ check (runes_of_ascii "packet roots
-// a // b
-// " ++ [128512]%N ++ runes_of_ascii " emoji
-{ // " ++ [27880; 37322]%N ++ runes_of_ascii "
-@tag(0
-)
-    repeat // `tick` ""quote"" 'q'
-zchar[
-/// triple
-//x
-0
-]x , } options { As =""\" ++ [233]%N ++ runes_of_ascii """ ;pack = ' ' ; int = // `tick` ""quote"" 'q'
-'\x00' ; options1 =
-""`tick`"" ; }")).
-Eval vm_compute in ("<<<M169>>>" ++ check (runes_of_ascii "root packet
-    // `tick` ""quote"" 'q'
-    string_ { repeat
-char[00]  rootA
-    ,
-// " ++ [128512]%N ++ runes_of_ascii " emoji
-// " ++ [27880; 37322]%N ++ runes_of_ascii "
-}
-    MetaData u {i32 options1,
-}MetaData
-rootA
-{
-u16  chars	,
-/// triple
-//x
-}
-")).
-Eval vm_compute in ("<<<M336>>>" ++ check (runes_of_ascii "
-packet msg_type
-{
-    zchar[ 65535
-    /// triple
-    ]stringy // `tick` ""quote"" 'q'
-@calculatedFrom( """ ++ [233]%N ++ runes_of_ascii "t" ++ [233]%N ++ runes_of_ascii """ )
-,@tag( 0
-) repeat i64_,
-}
-// packet A { u8 x, }
-")).
-Eval vm_compute in ("<<<M195>>>" ++ check (runes_of_ascii "MetaData msg_type {} root packet
-A{ repeat i32 leftPad
-`it's`
-,
-    //x
-    }  root
-    packet a1
-    {char[
-    // c
-    255 ]
-    falsey // @lengthOf(
-, }")).
-Eval vm_compute in ("<<<M150>>>" ++ check (runes_of_ascii "packet
-    //	t
-    Logon {
-metadata
-@calculatedFrom( ""a\\"" ) , @tag( 42 ) // " ++ [128512]%N ++ runes_of_ascii " emoji
-@tag(	65535 )
-repeat u16 o `line1
-line2` ,
-} packet float { }
+Eval vm_compute in ("<<<M1868>>>" ++ check (runes_of_ascii "packet
 
+    Logon
+{ string user
+
+    ,
+}
+root 
+packet
+	Frame {
+u8
+K	,	match
+
+K
+as
+	Body
+	{1
+: Logon
+,
+    2  :Logout  ,  }  ,
+	Tail , }
+
+packet 
+Logout{ 
+u16 
+reason
+,}
+packet
+Tail
+
+{
+	u32 crc
+, }
 ")).
-Eval vm_compute in ("<<<M547>>>" ++ check (runes_of_ascii "%packet uint8x
+Eval vm_compute in ("<<<M1440>>>" ++ check (runes_of_ascii "packet A {
+    match k as n {
+        ""\
+        "" : B,
+        [""\
+        "", 1] : C,
+        [
+            1, 2, 3, 4, 5,
+            ""\
+            ""
+        ] : D,
+    },
+}")).
+Eval vm_compute in ("<<<M1750>>>" ++ check (runes_of_ascii "packet calculatedFrom {
+    uint8x {
+        body `line1
+                line2`,
+        string crc @lengthOf(uint8x),
+        char[] As @lengthOf(Pad),
+    },
+}")).
+Eval vm_compute in ("<<<M528>>>" ++ check (runes_of_ascii "packet uint8x
 { match pack
+    as msg_type	{
+    0123456789 :	float
+}
+,
+} packet //	t
+a1
+    { } options {packetx
+    = '\x00'	; u128= ""a	b""  packet }
+")).
+Eval vm_compute in ("<<<M488>>>" ++ check (runes_of_ascii "packet uint8x
+{ match pack
+    as msg_type	{
+    0123456789 :	float
+}
+,
+} packet //	t
+a1
+    { } options i8 packetx
+    = '\x00'	; u128= ""a	b""  ; }
+")).
+Eval vm_compute in ("<<<M412>>>" ++ check (runes_of_ascii "packet uint8x
+{ match as
+    pack msg_type	{
+    0123456789 :	float
+}
+,
+} packet //	t
+a1
+    { } options {packetx
+    = '\x00'	; u128= ""a	b""  ; }
+")).
+Eval vm_compute in ("<<<M400>>>" ++ check (runes_of_ascii "packet uint8x
+ match pack
     as msg_type	{
     0123456789 :	float
 }
@@ -769,7 +996,23 @@ a1
     { } options {packetx
     = '\x00'	; u128= ""a	b""  ; }
 ")).
-Eval vm_compute in ("<<<M502>>>" ++ check (runes_of_ascii "packet uint8x
+Eval vm_compute in ("<<<M1464>>>" ++ check (runes_of_ascii "
+MetaData 
+leftPad { chars 
+MetaDataX  ,
+	} 
+packet
+repeatCount
+
+    { char[ 255 ] 
+
+    // c
+    uint8x
+	`" ++ [233]%N ++ runes_of_ascii "`  ,
+} MetaData pack
+	{As Foo ,
+    }")).
+Eval vm_compute in ("<<<M500>>>" ++ check (runes_of_ascii "packet uint8x
 { match pack
     as msg_type	{
     0123456789 :	float
@@ -778,12 +1021,12 @@ Eval vm_compute in ("<<<M502>>>" ++ check (runes_of_ascii "packet uint8x
 } packet //	t
 a1
     { } options {packetx
-    = ;	'\x00' u128= ""a	b""  ; }
+    = 	; u128= ""a	b""  ; }
 ")).
-Eval vm_compute in ("<<<M433>>>" ++ check (runes_of_ascii "packet uint8x
+Eval vm_compute in ("<<<M420>>>" ++ check (runes_of_ascii "packet uint8x
 { match pack
-    as msg_type	{
-    ""`tick`"" :	float
+    as 	{
+    0123456789 :	float
 }
 ,
 } packet //	t
@@ -791,234 +1034,211 @@ a1
     { } options {packetx
     = '\x00'	; u128= ""a	b""  ; }
 ")).
-Eval vm_compute in ("<<<M684>>>" ++ check (runes_of_ascii "// @lengthOf(
-packet i8i8 { u128 o , }
+Eval vm_compute in ("<<<M658>>>" ++ check (runes_of_ascii "// @lengthOf(
+ i8i8 { u128 o , }
 options { MetaDataX = true;
     BodyLength =""packet"" x_y_z= 007
 crc //x
 = ""abc"" ;
     msg_type =
-i16 } }")).
-Eval vm_compute in ("<<<M694>>>" ++ check (runes_of_ascii "// @lengthOf(
-packet i8i8 { u128 o , }
-options { MetaDataX = true;
-    = BodyLength""packet"" x_y_z= 007
-crc //x
-= ""abc"" ;
-    msg_type =
 i16 }")).
-Eval vm_compute in ("<<<M1612>>>" ++ check (runes_of_ascii "packet A {
-    match k as n {
-        [
-            ""a"", ""bb"", ""c c"", ""d"", ""e"",
-            ""f"", ""g""
-        ] : B,
-        2 : C,
-    },
+Eval vm_compute in ("<<<M144>>>" ++ check (runes_of_ascii "  MetaData falsey {o i8i8
+,char[]
+pack  ,
+float32 lengthOf , len //x
+BodyLength, BodyLength o
+, stringy  u128	`crlf
+line` , } 	 ")).
+Eval vm_compute in ("<<<M1947>>>" ++ check (runes_of_ascii "
+packet
+uint8x
+	{match  pack
+    as 
+msg_type {
+
+    0123456789
+
+:
+    float
+
+    } ,  }
+    packet 	 //	t
+    	a1{
+
 }")).
-Eval vm_compute in ("<<<M1590>>>" ++ check (runes_of_ascii "MetaData leftPad {	chars MetaDataX
-,
-	} packet
-repeatCount {
-char[ 
-255 ]uint8x
-`" ++ [233]%N ++ runes_of_ascii "` 
-	// c
-,
-}	MetaData  pack {As
-	Foo
+Eval vm_compute in ("<<<M1149>>>" ++ check (runes_of_ascii "MetaData leftPad { chars // c
+MetaDataX , } packet repeatCount { char[ 255 ] uint8x `" ++ [233]%N ++ runes_of_ascii "` , } MetaData pack { As Foo , }")).
+Eval vm_compute in ("<<<M1181>>>" ++ check (runes_of_ascii "MetaData leftPad { chars MetaDataX , } packet repeatCount { char[ 255 ] uint8x `" ++ [233]%N ++ runes_of_ascii "` , } MetaData pack { // c
+As Foo , }")).
+Eval vm_compute in ("<<<M1723>>>" ++ check (runes_of_ascii "packet
+    A 
+{ match
 
-    , 
-} ")).
-Eval vm_compute in ("<<<M1666>>>" ++ check (runes_of_ascii "MetaData leftPad {
-    chars MetaDataX,
-}
-
-packet repeatCount {
-    char[255] uint8x `" ++ [233]%N ++ runes_of_ascii "`,
-}
-
-MetaData pack {
-    As Foo,
-}// c")).
-Eval vm_compute in ("<<<M1143>>>" ++ check (runes_of_ascii "MetaData // c
-leftPad { chars MetaDataX , } packet repeatCount { char[ 255 ] uint8x `" ++ [233]%N ++ runes_of_ascii "` , } MetaData pack { As Foo , }")).
-Eval vm_compute in ("<<<M1175>>>" ++ check (runes_of_ascii "MetaData leftPad { chars MetaDataX , } packet repeatCount { char[ 255 ] uint8x `" ++ [233]%N ++ runes_of_ascii "` , } // c
-MetaData pack { As Foo , }")).
-Eval vm_compute in ("<<<M1418>>>" ++ check (runes_of_ascii "
-packet A
-{ u16 len @lengthOf(body ) 
-`tab
-	x`
-
-, u32	crc@calculatedFrom(""CRC32"")	`tab
-	x`
-,  string body
-,
-    }")).
-Eval vm_compute in ("<<<M1897>>>" ++ check (runes_of_ascii "packet 
-A {Inner
-	{ 
-match
-
-k  as
-n  {	[ 1
-
-    , 22
-	,
-    007]	:
+    k  as  n 
+{
+	[1,	22
+, ""c c"" ,4,
+    5  ]  :
 
     B
 
     ,
+2
 
-    },
-
-}  ,  }
+    :	C }
+, }
 
 ")).
-Eval vm_compute in ("<<<M158>>>" ++ check (runes_of_ascii "
-MetaData charz { As u128 , Logon options1 `say ""hi""` ,
-    zchar[ 0
-// @lengthOf(
-//
-]Logon ,
-    }
-")).
-Eval vm_compute in ("<<<M1547>>>" ++ check (runes_of_ascii "  packet
-
-    A
-
-{Inner	{
-    u8 x
-    `x
-`
-
-    ,
-Deep
-{
-	u8 
-y`x
-`
-    , } 
-,	}
-
-    , } ")).
-Eval vm_compute in ("<<<M862>>>" ++ check (runes_of_ascii "packet A {
-  match k as n {
-    [""a"", ""bb"", 007, ""d"", ""e"", 66, ""g"", ""h""] : B,
-    2 : C
-  },
+Eval vm_compute in ("<<<M949>>>" ++ check (runes_of_ascii "packet A {
+    u16 len @lengthOf(body) `x
+`,
+    u32 crc @calculatedFrom(""CRC32"") `x
+`,
+    string body,
 }")).
-Eval vm_compute in ("<<<M613>>>" ++ check (runes_of_ascii "
+Eval vm_compute in ("<<<M920>>>" ++ check (runes_of_ascii "packet A {
+    Inner {
+        u8 x `a
+b`,
+        Deep {
+            u8 y `a
+b`,
+        },
+    },
+}")).
+Eval vm_compute in ("<<<M1954>>>" ++ check (runes_of_ascii "packet
+
+    A 
+{ 
+u16 // a
+
+len // b
+@lengthOf(// c
+  	body  // d
+
+)	// e
+	`d`  // f
+	  , }
+")).
+Eval vm_compute in ("<<<M630>>>" ++ check (runes_of_ascii "
 packet
-    asx {match u128 as lengthOf
+    a@tagsx {match u128 as lengthOf
 {
-//	t
-// `tick` ""quote"" 'q'
-255 : x ,
-    } } ,	}")).
-Eval vm_compute in ("<<<M584>>>" ++ check (runes_of_ascii "
-packet
-    asx {match u128 as {
-lengthOf
 //	t
 // `tick` ""quote"" 'q'
 255 : x ,
     } ,	}")).
-Eval vm_compute in ("<<<M845>>>" ++ check (runes_of_ascii "packet A {
+Eval vm_compute in ("<<<M870>>>" ++ check (runes_of_ascii "packet A {
   match k as n {
-    [""a"", 22, ""c c"", 4, ""e"", 66, ""g""] : B,
+    [1, ""bb"", 007, ""d"", 5, ""f"", 7, ""h"", 9] : B
     2 : C
   },
 }")).
-Eval vm_compute in ("<<<M1426>>>" ++ check (runes_of_ascii "packet A {
-    B b `x
-        `,
-    B `x
-        `,
-    repeat B bs `x
-        `,
+Eval vm_compute in ("<<<M849>>>" ++ check (runes_of_ascii "packet A {
+  match k as n {
+    [""a"", ""bb"", 007, ""d"", ""e"", 66, ""g""] : B,
+    2 : C
+  },
 }")).
-Eval vm_compute in ("<<<M616>>>" ++ check (runes_of_ascii "
-packet
-    asx {match u128 as lengthOf
-{
-//	t
-// `tick` ""quote"" 'q'
-255 : x ,")).
-Eval vm_compute in ("<<<M166>>>" ++ check (runes_of_ascii "packet calculatedFrom {repeat // packet A { u8 x, }
-string Foo`{ , }`	, }
-")).
-Eval vm_compute in ("<<<M1937>>>" ++ check (runes_of_ascii "root packet P {
-    u16 a,
-    u32 Sum @calculatedFrom(""CR\
-    C32""),
+Eval vm_compute in ("<<<M771>>>" ++ check (runes_of_ascii "true @tag( root : repeat @calculatedFrom( match f64 int32 ] { zchar[ packet @lengthOf(")).
+Eval vm_compute in ("<<<M844>>>" ++ check (runes_of_ascii "packet A {
+  match k as n {
+    [1, ""bb"", 007, ""d"", 5, ""f"", 7] : B
+    2 : C
+  },
 }")).
-Eval vm_compute in ("<<<M1557>>>" ++ check (runes_of_ascii "packet A{ repeat 	 // a
-    B 	 // b
-b 	 // c
-  	`d` // e
-	  , }
-")).
-Eval vm_compute in ("<<<M1126>>>" ++ check (runes_of_ascii "// top
-MetaData
-    // c0
-u
-    // c1
-{
-    // c2
+Eval vm_compute in ("<<<M972>>>" ++ check (runes_of_ascii "packet A {
+    u32 crc @calculatedFrom(""\
+""),
+    @calculatedFrom(""\
+"") u8 y,
+}")).
+Eval vm_compute in ("<<<M1744>>>" ++ check (runes_of_ascii "  packet
+A  {  }
+
+    packet B
+{ 
 }
-    // c3
+MetaData M
+    { 
+} options
+    {
+}
 ")).
-Eval vm_compute in ("<<<M1089>>>" ++ check (runes_of_ascii "packet A { // a
- @tag(1) u8 x, // b
- // c
- @tag(2) u8 y, }")).
-Eval vm_compute in ("<<<M1809>>>" ++ check (runes_of_ascii "options {
-    Logon = """ ++ [28040; 24687]%N ++ runes_of_ascii """;
-    BodyLength = false;
+Eval vm_compute in ("<<<M1879>>>" ++ check (runes_of_ascii "root
+packet
+
+    x {
+    roots
+
+@calculatedFrom( ""a\""b"" )
+,
+    }
+")).
+Eval vm_compute in ("<<<M924>>>" ++ check (runes_of_ascii "packet A {
+    B b `a
+b`,
+    B `a
+b`,
+    repeat B bs `a
+b`,
 }")).
-Eval vm_compute in ("<<<M341>>>" ++ check (runes_of_ascii "options  { len = // " ++ [128512]%N ++ runes_of_ascii " emoji
-""packet"" int
-= ""abc""}")).
-Eval vm_compute in ("<<<M1600>>>" ++ check (runes_of_ascii "options {
-    x = ""{,}""
-    matchKey = true;
+Eval vm_compute in ("<<<M189>>>" ++ check (runes_of_ascii "
+packet
+i64_ { @tag( 0123456789 ) repeat u16 stringy
+,
+    }")).
+Eval vm_compute in ("<<<M773>>>" ++ check (runes_of_ascii "packet A {
+  match k as n {
+    [1] : B,
+    2 : C
+  },
 }")).
-Eval vm_compute in ("<<<M940>>>" ++ check (runes_of_ascii "root packet A {
+Eval vm_compute in ("<<<M1220>>>" ++ check (runes_of_ascii "packet body { i32 f32a `{ , }` , } options { }
+// c
+")).
+Eval vm_compute in ("<<<M1432>>>" ++ check (runes_of_ascii "options {
+    a = ""x\
+    y"";
+    b = ""x\
+    y""
+}")).
+Eval vm_compute in ("<<<M284>>>" ++ check (runes_of_ascii "
+options{ trueish=
+'0' //	t
+;a1 = u64
+; }")).
+Eval vm_compute in ("<<<M1518>>>" ++ check (runes_of_ascii "root packet A {
     u8 x `a
-    b
-  c`,
+        b`,
 }")).
 Eval vm_compute in ("<<<M50>>>" ++ check (runes_of_ascii "options {
     Packet =  char[]  }
 ")).
-Eval vm_compute in ("<<<M1681>>>" ++ check (runes_of_ascii "packet A {
-    u8 x `d" ++ [6158]%N ++ runes_of_ascii "`,// c" ++ [6158]%N ++ runes_of_ascii "
+Eval vm_compute in ("<<<M1943>>>" ++ check (runes_of_ascii "packet A {
+    u8 x `d" ++ [8233]%N ++ runes_of_ascii "`,// c" ++ [8233]%N ++ runes_of_ascii "
 }")).
-Eval vm_compute in ("<<<M1048>>>" ++ check (runes_of_ascii "packet A {
- u8 x `d" ++ [8203]%N ++ runes_of_ascii "`, // c" ++ [8203]%N ++ runes_of_ascii "
-}")).
-Eval vm_compute in ("<<<M929>>>" ++ check (runes_of_ascii "packet A {
-    u8 x `
-`,
-}")).
-Eval vm_compute in ("<<<M63>>>" ++ check (runes_of_ascii "packet i64_
-    { }
-
+Eval vm_compute in ("<<<M1076>>>" ++ check (runes_of_ascii "MetaData M {
+}// c
+packet A {}")).
+Eval vm_compute in ("<<<M1880>>>" ++ check (runes_of_ascii "
+// c
+  	MetaData	u
+{ } ")).
+Eval vm_compute in ("<<<M238>>>" ++ check (runes_of_ascii "root packet chars
+{}
 ")).
-Eval vm_compute in ("<<<M1933>>>" ++ check (runes_of_ascii "root packet u128 {
-}")).
-Eval vm_compute in ("<<<M996>>>" ++ check (runes_of_ascii "packet A {
+Eval vm_compute in ("<<<M1041>>>" ++ check (runes_of_ascii "packet A {
 }
-// c" ++ [5760]%N)).
-Eval vm_compute in ("<<<M172>>>" ++ check (runes_of_ascii "packet
-len { }
-
+// c 	")).
+Eval vm_compute in ("<<<M1007>>>" ++ check (runes_of_ascii "// c" ++ [8202]%N ++ runes_of_ascii "
+packet A {
+}")).
+Eval vm_compute in ("<<<M974>>>" ++ check (runes_of_ascii "packet A {
+}// c ")).
+Eval vm_compute in ("<<<M1438>>>" ++ check (runes_of_ascii "packet Logon{	}
 ")).
-Eval vm_compute in ("<<<M310>>>" ++ check (runes_of_ascii "
-MetaData A {}
+Eval vm_compute in ("<<<M732>>>" ++ check (runes_of_ascii "// a
+// b
 ")).
-Eval vm_compute in ("<<<M750>>>" ++ check (runes_of_ascii "uk%W,3^r>l")).
-Eval vm_compute in ("<<<M1496>>>" ++ check (runes_of_ascii "// " ++ [27880; 37322]%N)).
+Eval vm_compute in ("<<<M1055>>>" ++ check (runes_of_ascii "// c" ++ [6158]%N)).
